@@ -84,6 +84,16 @@ func IntRange(min, max int) int {
 	}
 
 	r := (max + 1) - min
+	if r <= 0 {
+		// The range covers at least half of all ints, so its size does not
+		// fit in an int and (max + 1) - min wrapped around.  Use rejection
+		// sampling over the full 64 bit range instead of Intn.
+		for {
+			if ret := int(Rand.Uint64()); ret >= min && ret <= max {
+				return ret
+			}
+		}
+	}
 	ret := Rand.Intn(r)
 	return ret + min
 }
